@@ -166,6 +166,8 @@ impl Prover {
         domain: &EvaluationDomain,
     ) -> [Polynomial; 4] {
         let blind = |i: usize| {
+            #[cfg(feature = "verif")]
+            crate::verif::sched_point("prover.blind_wire", i);
             let blinders = blinders[i].as_slice();
             Self::blind_poly_with_blinders(witnesses[i], blinders, domain)
         };
